@@ -47,7 +47,9 @@ Compatible(p, q) == ~IsPrefix(p, q) /\ ~IsPrefix(q, p)
 \* which damaged records can still be read: "yes" must be listed, "no" must not,
 \* "same" = decided by the driver's own Get on that record (List must agree with it)
 Readable(dmg) == CASE dmg = "intact" -> "yes"
-                   [] dmg \in {"notbase64", "badgzip", "truncated", "notjson", "jsonlist", "wrongtype"} -> "no"
+                   [] dmg \in {"notbase64", "badgzip", "truncated", "notjson", "jsonlist", "wrongtype",
+                               "nokey", "emptyvalue", "onebyte", "twobytes"} -> "no"
+                                               \* the object has no `release` key at all / an empty one / one or two bytes
                    [] OTHER -> "same"          \* "jsonnull", "emptyobject", "nullinfo", "nullchart": decodable
 
 VARIABLES mode, doc, dev, fam, toks, drv, store
